@@ -212,7 +212,15 @@ func (s *SencBox) ParseReadBox(perSampleIVSize byte, saiz *SaizBox) error {
 			s.perSampleIVSize = perSampleIVSize
 		}
 
-		s.IVs = make([]InitializationVector, 0, s.SampleCount)
+		if uint64(perSampleIVSize)*uint64(s.SampleCount) > uint64(nrBytesLeft) {
+			return fmt.Errorf("senc: %d bytes is too little for %d samples with perSampleIVSize %d",
+				nrBytesLeft, s.SampleCount, perSampleIVSize)
+		}
+		nrIVs := s.SampleCount
+		if perSampleIVSize == 0 {
+			nrIVs = 0
+		}
+		s.IVs = make([]InitializationVector, 0, nrIVs)
 		switch perSampleIVSize {
 		case 0:
 			// Nothing to do
